@@ -30,6 +30,18 @@ pub mod siphasher {
         }
     }
 }
+pub mod byteorder {
+    use vstd::prelude::*;
+    use crate::shim::*;
+    use crate::stdshim::be_val;
+    pub struct BigEndian;
+    /// byteorder::BigEndian::read_uN panic when the slice is shorter than N/8 bytes: that is the precondition
+    impl BigEndian {
+        #[verifier::external_body] pub fn read_u16(buf: &[u8]) -> (r: u16) requires buf@.len() >= 2 ensures r == be16(buf@, 0) { unimplemented!() }
+        #[verifier::external_body] pub fn read_u32(buf: &[u8]) -> (r: u32) requires buf@.len() >= 4 ensures r == be32(buf@, 0) { unimplemented!() }
+        #[verifier::external_body] pub fn read_u128(buf: &[u8]) -> (r: u128) requires buf@.len() >= 16 ensures be_bytes16(r) == buf@.subrange(0, 16) { unimplemented!() }
+    }
+}
 pub mod flate2 {
     use vstd::prelude::*;
     /// the zlib stream flate2 produces for `data` at the default level: uninterpreted.  Assumed (never
